@@ -294,6 +294,7 @@ type built struct {
 	log       *recLog
 	leaves    []*recLeaf // wrapped leaves in flattened order (step/istep internals are not wrapped)
 	tblOK     bool
+	bare      bool // no recording wrappers at all (race cases)
 	ctorPanic string
 }
 
@@ -335,6 +336,9 @@ func (b *built) build(n *node, top bool) core.Schedule {
 			b.tblOK = false
 		}
 	}
+	if b.bare {
+		return realLeaf(n)
+	}
 	l := &recLeaf{inner: realLeaf(n), id: len(b.leaves), unl: n.kind == "unl", log: b.log}
 	b.leaves = append(b.leaves, l)
 	return l
@@ -345,7 +349,7 @@ func (b *built) build(n *node, top bool) core.Schedule {
 // part (its operations run under the log mutex); at top level it is left bare so that its own
 // composite is exercised concurrently.
 func (b *built) wrapPart(s core.Schedule, top bool) core.Schedule {
-	if top {
+	if top || b.bare {
 		return s
 	}
 	l := &recLeaf{inner: s, id: len(b.leaves), log: b.log}
